@@ -71,6 +71,11 @@ class StepMeter:
         self.tripped = False
         self.where = None
         self.installed = False
+        # pre-emption: (k, fn) - at the k-th line event of the current
+        # window fn() runs to completion, as another caller thread would
+        # if the interpreter switched threads right there
+        self.preempt = None
+        self.preempted = 0
 
     def install(self):
         if self.installed:
@@ -89,6 +94,17 @@ class StepMeter:
         if not self.active:
             return None
         self.count += 1
+        if self.preempt is not None and self.count >= self.preempt[0]:
+            fn = self.preempt[1]
+            self.preempt = None
+            self.active = False     # the other caller's steps are its own
+            try:
+                fn()
+            except Exception:       # noqa: BLE001  (its failure is its own)
+                pass
+            finally:
+                self.active = True
+                self.preempted += 1
         if self.count > self.budget and not self.tripped:
             self.tripped = True
             self.where = "%s:%d" % (code.co_name, lineno)
@@ -105,6 +121,7 @@ class StepMeter:
         _mon.set_events(_TOOL, _mon.events.LINE)
 
     def end(self) -> int:
+        self.preempt = None
         if self.active:
             self.active = False
             _mon.set_events(_TOOL, 0)
@@ -164,9 +181,11 @@ def innermost_pvl_frame(exc) -> str:
     return where
 
 
-def guarded(fn, nchars: int) -> Outcome:
-    """Run fn() under the step meter with a budget computed from nchars."""
+def guarded(fn, nchars: int, preempt=None) -> Outcome:
+    """Run fn() under the step meter with a budget computed from nchars.
+    preempt: (k, other) - other() runs at the k-th line event of fn()."""
     METER.begin(step_budget(nchars))
+    METER.preempt = preempt
     try:
         v = fn()
         steps = METER.end()
